@@ -26,7 +26,7 @@ def containsBadChars (scan : List B → Option String) (sym : List B) (issym : B
   let b0 := sym.headD 0
   let extra :=
     if ppRefusesMisreadSymbols && issym then
-      sym.isEmpty || b0 == 58 || isConst (strBytes "nil") sym || isConst (strBytes "true") sym || isConst (strBytes "false") sym
+      sym.isEmpty || b0 == 58 || isConst nilBytes sym || isConst trueBytes sym || isConst falseBytes sym
         || ((b0 == 45 || b0 == 43 || b0 == 46) && (scan sym).isSome)
     else false
   extra || (!sym.isEmpty && issym && 48 ≤ b0.toNat && b0.toNat ≤ 57) || !validUtf8 sym || !sym.all isSymbolChar
@@ -52,9 +52,9 @@ def jdn (scan : List B → Option String) (fmt : String → Option (List B)) : N
         | some a, some b => some (a ++ [32] ++ b)
         | _, _ => none))).map (sepBy [32])
     match v with
-    | .nil => some (strBytes "nil")
-    | .bool true => some (strBytes "true")
-    | .bool false => some (strBytes "false")
+    | .nil => some nilBytes
+    | .bool true => some trueBytes
+    | .bool false => some falseBytes
     | .num tag => fmt tag
     | .str bs => some (escapeString bs)
     | .buf bs => some (64 :: escapeString bs)
